@@ -220,7 +220,7 @@ Qed.
 Theorem reduce_op_spec k keepdims noop x axes :
   let r := length (shape x) in
   let ax := match axes with Some a => a | None => [] end in
-  (ax = [] -> noop = true -> reduce_op k keepdims noop x axes = Some x) /\
+  (ax = [] -> noop = true -> reduce_op k keepdims noop x axes = if red_idempotent k then Some x else None) /\
   (ax = [] -> noop = false -> reduce_op k keepdims noop x axes = reduce k keepdims x (seq 0 r)) /\
   (ax <> [] -> forall ks, norm_axes r ax = Some ks -> nodupb ks = true ->
      reduce_op k keepdims noop x axes = reduce k keepdims x ks) /\
